@@ -88,3 +88,17 @@ pub fn arg_after(args: &[String], flag: &str) -> Option<String> {
         .position(|a| a == flag)
         .and_then(|i| args.get(i + 1).cloned())
 }
+
+/// Progress marker for crash bisection: with VERIF_BISECT set, the index of the behaviour about to
+/// run is written to stderr, so that after a crash the driver knows which one killed the child.
+pub fn mark(bi: usize) {
+    static ON: std::sync::atomic::AtomicUsize = std::sync::atomic::AtomicUsize::new(2);
+    let mut on = ON.load(std::sync::atomic::Ordering::Relaxed);
+    if on == 2 {
+        on = if std::env::var_os("VERIF_BISECT").is_some() { 1 } else { 0 };
+        ON.store(on, std::sync::atomic::Ordering::Relaxed);
+    }
+    if on == 1 {
+        eprintln!("BEH {}", bi);
+    }
+}
